@@ -5,7 +5,7 @@ Property theorems only (helper lemmas live in `PvProofs/Lemmas/Settle*.lean`).  
 for every list of asks and bids, every amount, every ratio; where the Go code can only be entered
 with stored orders (positive amounts, `Order.Validate`) that is an explicit hypothesis.
 -/
-import PvProofs.Lemmas.SettleKeeperL
+import PvProofs.Lemmas.SettleFees
 import Mathlib.Tactic.SplitIfs
 
 namespace PvProofs.C01
@@ -367,7 +367,9 @@ ids, and *every* account `x` and denom `d`:
 * `x`'s balance changes by what its filled orders say (`expectedDelta`: asks `− assets + received`,
   bids `+ assets − price`) minus the fees of its orders, plus — if `x` is the market account — all
   fees minus the exchange's share, plus — if `x` is the fee collector — the exchange's share;
-* the exchange's share of a denom is `CalculateExchangeSplit` of the **total** fees of that denom;
+* the exchange's share of a denom is `CalculateExchangeSplit` of the **total** fees of that denom, stated
+  declaratively (`IsExchangeShare`): nothing when the total or the denom's split is zero, otherwise
+  exactly `⌈total·split/10000⌉`, between 0 and the total;
 * total supply of every denom is unchanged (no coins created or destroyed). -/
 theorem closeSettlement_deltas {asks bids : List Order} {lookup : Denom → Except Err (Option Ratio)} {p : Plan}
     {s : Settlement} (hp : plan asks bids lookup = .ok p) (hs : p.settlement = .ok s)
@@ -375,7 +377,7 @@ theorem closeSettlement_deltas {asks bids : List Order} {lookup : Denom → Exce
     {market collector : Addr} {split : Denom → Nat} {L : Ledger}
     (hc : closeSettlement market collector split s = .ok L) :
     ∃ ex : Coins,
-      (∀ d, ∃ r, Fees.exchangeSplitCoin (totalFees s.filled d) (split d) = .ok r ∧ amountOf ex d = r.getD 0) ∧
+      (∀ d, IsExchangeShare (totalFees s.filled d) (split d) (amountOf ex d)) ∧
       (∀ x d, bal L x d = expectedDelta s.filled x d - expectedFees s.filled x d
           + (if market = x then totalFees s.filled d - amountOf ex d else 0)
           + (if collector = x then amountOf ex d else 0)) ∧
@@ -401,7 +403,9 @@ theorem closeSettlement_deltas {asks bids : List Order} {lookup : Denom → Exce
   refine ⟨ex, ?_, ?_, ?_⟩
   · intro d
     obtain ⟨r, h1, h2⟩ := exchangeSplit_spec hex d
-    exact ⟨r, by rw [← htot d]; exact h1, h2⟩
+    have := exchangeShare_spec (show Fees.exchangeSplitCoin (amountOf s.feeInputs.total d) (split d) = .ok r from h1)
+    rw [htot d] at this
+    rw [h2]; exact this
   · intro x d
     obtain ⟨e1, e2⟩ := filled_is_reordering hs hn x d
     have h1 := account_deltas hp hs x d
@@ -561,14 +565,19 @@ nothing" built in (the harness checks that on the implementation). -/
 the ledger entries it appends change, for every account `x` and denom `d`: each filled bid's owner by
 `+ assets − price − its fees`; the seller by `+ Σ prices − Σ assets − (flat fee + ratio fees)`; the
 market by all fees minus the exchange's share; the fee collector by that share; nobody else; and total
-supply is unchanged. -/
+supply is unchanged.  The seller's fees are exactly the flat fee of the request plus, per price coin of
+the canonical price total, the market's ratio fee — the ceiling `⌈price·fee/ratio price⌉`
+(`IsRatioFeeOf`; `fillBids_seller_fee_ceil` spells it out for a market with a ratio); the exchange's
+share of every denom is the ceiling share of the total fees (`IsExchangeShare`). -/
 theorem fillBids_deltas {s s' : KState} {m c seller : Addr} {ids : List Nat} {ta flat : Coins}
     (h : s.fillBids m c seller ids ta flat = .ok s') :
-    ∃ (orders : List Order) (sellerFees ex : Coins) (L : Ledger),
+    ∃ (orders : List Order) (ratioFees : List Coins) (sellerFees ex : Coins) (L : Ledger),
       s.getOrders false ids seller = .ok orders ∧ s'.ledger = s.ledger ++ L ∧
       (∀ d, amountOf ta d = (orders.map fun o => if o.assetsDenom = d then o.assets else 0).sum) ∧
-      (∀ d, ∃ r, Fees.exchangeSplitCoin ((orders.map fun o => amountOf o.fees d).sum + amountOf sellerFees d) (s.splitOf d) = .ok r
-          ∧ amountOf ex d = r.getD 0) ∧
+      sellerFees = flat ++ ratioFees.flatten ∧
+      List.Forall₂ (IsRatioFeeOf s) (sumCoins (orders.map fun o => [(o.priceDenom, o.price)])) ratioFees ∧
+      (∀ d, IsExchangeShare ((orders.map fun o => amountOf o.fees d).sum + amountOf sellerFees d) (s.splitOf d)
+          (amountOf ex d)) ∧
       (∀ x d, bal L x d =
           (orders.map fun o => if o.owner = x then fillOwnerDelta o d - amountOf o.fees d else 0).sum
           + (if seller = x then - (orders.map fun o => fillOwnerDelta o d).sum - amountOf sellerFees d else 0)
@@ -584,11 +593,7 @@ theorem fillBids_deltas {s s' : KState} {m c seller : Addr} {ids : List Nat} {ta
   simp only [ne_eq, Decidable.not_not] at htot
   split at h; · simp at h
   rename_i ratioFees hrf
-  unfold KState.close at h
-  split at h; · simp at h
-  rename_i L hL
-  simp only [Except.ok.injEq] at h
-  subst h
+  obtain ⟨L, hL, rfl⟩ := close_unfold h
   obtain ⟨ex, hex, rfl⟩ := closeSettlement_unfold hL
   dsimp only at hex ⊢
   have hta : ∀ d, amountOf ta d = (orders.map fun o => if o.assetsDenom = d then o.assets else 0).sum := by
@@ -603,13 +608,13 @@ theorem fillBids_deltas {s s' : KState} {m c seller : Addr} {ids : List Nat} {ta
       (flat ++ ratioFees.flatten))) d = (orders.map fun o => amountOf o.fees d).sum + amountOf (flat ++ ratioFees.flatten) d := by
     intro d
     rw [total_add, total_foldl_orders]; simp
-  refine ⟨orders, flat ++ ratioFees.flatten, ex, _, hor, rfl, hta, ?_, ?_, ?_⟩
+  refine ⟨orders, ratioFees, flat ++ ratioFees.flatten, ex, _, hor, rfl, hta, rfl,
+    forall₂_imp (fun _ _ h => ratioFeeOf_spec h) (mapM_forall₂ _ _ _ hrf), ?_, ?_, ?_⟩
   · intro d
     obtain ⟨r, h1, h2⟩ := exchangeSplit_spec hex d
-    refine ⟨r, ?_, h2⟩
     unfold splitOf at h1
     rw [hfeeTot d] at h1
-    exact h1
+    rw [h2]; exact exchangeShare_spec h1
   · intro x d
     simp only [List.flatMap_cons, List.flatMap_nil, List.append_nil, Transfer.ledger, bal_append, bal_debits,
       credits_cons, credits_nil, bal_entries, amountOf_neg, bal_credits_add, bal_credits_foldl_orders,
@@ -641,16 +646,19 @@ theorem fillBids_deltas {s s' : KState} {m c seller : Addr} {ids : List Nat} {ta
 for every account `x` and denom `d` the appended ledger entries change: each filled ask's owner by
 `− assets + price − (its flat fee + the ratio fee of its price)`; the buyer by
 `+ Σ assets − Σ prices − the settlement fees it offered`; the market by all fees minus the exchange's
-share; the fee collector by that share; nobody else; total supply unchanged. -/
+share; the fee collector by that share; nobody else; total supply unchanged.  Each ask's ratio fee is
+the market's ratio applied to that ask's price — the ceiling `⌈price·fee/ratio price⌉` (`IsRatioFeeOf`) —
+and the exchange's share of every denom is the ceiling share of the total fees (`IsExchangeShare`). -/
 theorem fillAsks_deltas {s s' : KState} {m c buyer : Addr} {ids : List Nat} {tp : Denom × Int} {buyerFees : Coins}
     (h : s.fillAsks m c buyer ids tp buyerFees = .ok s') :
     ∃ (orders : List Order) (ratioFees : List Coins) (ex : Coins) (L : Ledger),
       s.getOrders true ids buyer = .ok orders ∧
       orders.mapM (fun o => s.ratioFeeOf (o.priceDenom, o.price)) = .ok ratioFees ∧
+      List.Forall₂ (fun o f => IsRatioFeeOf s (o.priceDenom, o.price) f) orders ratioFees ∧
       s'.ledger = s.ledger ++ L ∧
       (∀ d, amountOf [tp] d = (orders.map fun o => if o.priceDenom = d then o.price else 0).sum) ∧
-      (∀ d, ∃ r, Fees.exchangeSplitCoin (((orders.zip ratioFees).map fun p => amountOf (p.1.fees ++ p.2) d).sum
-            + amountOf buyerFees d) (s.splitOf d) = .ok r ∧ amountOf ex d = r.getD 0) ∧
+      (∀ d, IsExchangeShare (((orders.zip ratioFees).map fun p => amountOf (p.1.fees ++ p.2) d).sum
+            + amountOf buyerFees d) (s.splitOf d) (amountOf ex d)) ∧
       (∀ x d, bal L x d =
           ((orders.zip ratioFees).map fun p => if p.1.owner = x then - fillOwnerDelta p.1 d - amountOf (p.1.fees ++ p.2) d else 0).sum
           + (if buyer = x then (orders.map fun o => fillOwnerDelta o d).sum - amountOf buyerFees d else 0)
@@ -668,11 +676,7 @@ theorem fillAsks_deltas {s s' : KState} {m c buyer : Addr} {ids : List Nat} {tp 
   simp only [ne_eq, Decidable.not_not] at htot
   split at h; · simp at h
   rename_i ratioFees hrf
-  unfold KState.close at h
-  split at h; · simp at h
-  rename_i L hL
-  simp only [Except.ok.injEq] at h
-  subst h
+  obtain ⟨L, hL, rfl⟩ := close_unfold h
   obtain ⟨ex, hex, rfl⟩ := closeSettlement_unfold hL
   dsimp only at hex ⊢
   have htp : ∀ d, amountOf [(td, tv)] d = (orders.map fun o => if o.priceDenom = d then o.price else 0).sum := by
@@ -688,13 +692,13 @@ theorem fillAsks_deltas {s s' : KState} {m c buyer : Addr} {ids : List Nat} {tp 
       = ((orders.zip ratioFees).map fun p => amountOf (p.1.fees ++ p.2) d).sum + amountOf buyerFees d := by
     intro d
     rw [total_add, total_foldl_gen]; simp
-  refine ⟨orders, ratioFees, ex, _, hor, hrf, rfl, htp, ?_, ?_, ?_⟩
+  refine ⟨orders, ratioFees, ex, _, hor, hrf,
+    forall₂_imp (fun _ _ h => ratioFeeOf_spec h) (mapM_forall₂ _ _ _ hrf), rfl, htp, ?_, ?_, ?_⟩
   · intro d
     obtain ⟨r, h1, h2⟩ := exchangeSplit_spec hex d
-    refine ⟨r, ?_, h2⟩
     unfold splitOf at h1
     rw [hfeeTot d] at h1
-    exact h1
+    rw [h2]; exact exchangeShare_spec h1
   · intro x d
     have hzip : ∀ (F : Order → Int), ((orders.zip ratioFees).map fun p => F p.1).sum = (orders.map F).sum := by
       intro F
@@ -878,11 +882,7 @@ theorem settleOrders_covered {s s' : KState} {m c : Addr} {a b : List Nat} {ep :
     split at h; · simp at h
     rename_i hep
     simp only [ne_eq, Decidable.not_not] at hep
-    unfold KState.close at h
-    split at h; · simp at h
-    rename_i L hL
-    simp only [Except.ok.injEq] at h
-    subst h
+    obtain ⟨L, hL, rfl⟩ := close_unfold h
     refine ⟨asks, bids, st, L, ha, hb, hst, hep, hL, rfl, ?_, ?_⟩
     · intro o ho
       rcases List.mem_append.mp ho with h' | h'
